@@ -3,8 +3,8 @@ SPEC = {
     'engine': 'send', 'harness': 'send.cpp',
     'repo_srcs': ['N2kMsg.cpp', 'N2kStream.cpp', 'N2kMessages.cpp', 'N2kTimer.cpp', 'N2kGroupFunction.cpp', 'N2kGroupFunctionDefaultHandlers.cpp', 'NMEA2000.cpp'],
     'variants': ['', 't32'],
-    'lean_modules': ['N2k.Props.C01'], 'props_files': ['N2k/Props/C01.lean'],
-    'translators': ['pgn_tables'],
+    'lean_modules': ['N2k.Props.Consts.C01', 'N2k.Props.C01'], 'props_files': ['N2k/Props/Consts/C01.lean', 'N2k/Props/C01.lean'],
+    'translators': ['constants', 'pgn_tables'],
     'case_start': ['reset', 'reset0'],
     'trusted_base': ["PGN classification tables are REGENERATED from src/NMEA2000.cpp on every run (tools/translators/pgn_tables.py, "
                      "regex over g++ -E output) and the classification theorems are re-proved against them by decide +kernel",
